@@ -81,6 +81,7 @@ pub fn run(ctx: &mut Ctx) {
             fam::exhaustive(ctx, "elem", &cfgs, l, true, &fam::elem_seqs);
             fam::histories(ctx, "elem-hist", &cfgs, &hist(thorough, true, false, true, false));
             scale(ctx);
+            crate::special::stack_overaligned(ctx);
         }
         "C02" => {
             fam::exhaustive(ctx, "range", &cfgs, l, true, &fam::range_ops);
@@ -123,6 +124,7 @@ pub fn run(ctx: &mut Ctx) {
         }
         "C12" => {
             crate::special::c12(ctx);
+            crate::special::stack_overaligned(ctx);
             // alignment and byte-view coherence are also watched after every step of the generic families,
             // so that histories (grow, empty, shrink to zero, regrow, clone, round trips) are covered
             if ctx.sub != "light" {
@@ -180,6 +182,7 @@ pub fn run(ctx: &mut Ctx) {
             fam::exhaustive(ctx, "lazy", &cfgs, l.min(5), false, &fam::lazy_ops);
             fam::histories(ctx, "mixed-hist", &cfgs, &hist(thorough, true, true, false, true));
             crate::special::c11_grid(ctx);
+            crate::special::stack_overaligned(ctx);
         }
         "C19" => {
             use hvcore::rigapi::MemKind;
@@ -190,6 +193,7 @@ pub fn run(ctx: &mut Ctx) {
             fam::exhaustive(ctx, "lazy", &cfgs, 3, false, &fam::lazy_ops);
             fam::histories(ctx, "mixed-hist", &cfgs, &hist(thorough, true, true, false, true));
             crate::special::c11_grid(ctx);
+            crate::special::stack_overaligned(ctx);
         }
         "C18" => {
             cfgs.retain(|c| c.mem == hvcore::rigapi::MemKind::Heap && !c.elem.heap);
